@@ -512,6 +512,20 @@ def shrink_case(pid, mod, case, rundir, failing):
     return cur
 
 
+def confirm_failure(pid, mod, case, rundir, prof, failing, tries=3):
+    """Re-runs a (shrunk) failing case: returns the first result tuple on which `failing` still holds, or None when
+    the failure did not show again in `tries` runs (a timing artefact of a runtime scenario: reported in the evidence
+    as unreproduced, never as a violation -- DESIGN.md section 7)."""
+    for _ in range(tries):
+        rr = run_both(pid, mod, [case], rundir, tag="final", profile=prof)[0]
+        if failing(rr):
+            return rr
+    return None
+
+
+UNREPRODUCED = []
+
+
 def write_replay(pid, rundir, n, kind, case, impl, model, verdict, extra=None):
     os.makedirs(rundir, exist_ok=True)
     path = os.path.join(rundir, "replay-%d.json" % n)
@@ -634,7 +648,10 @@ def main_check(pid, argv):
             if small in reported:
                 continue
             reported.add(small)
-            rr = run_both(pid, mod, [small], rundir, tag="final", profile=prof)[0]
+            rr = confirm_failure(pid, mod, small, rundir, prof, failing) or confirm_failure(pid, mod, c, rundir, prof, failing)
+            if rr is None:
+                UNREPRODUCED.append(dict(case=c[:2000], first_verdict=v, note="failed once in the main run, passed 6 re-runs"))
+                continue
             n += 1
             path = write_replay(pid, rundir, n, "oracle", rr[0], rr[1], rr[2], rr[3],
                                 dict(profile=prof, original_case=c, failures_of_this_class=sum(1 for x in oracle_fail if x[4] == ver)))
@@ -662,19 +679,27 @@ def main_check(pid, argv):
             def failing(r):
                 return (not oracle_ok(r[3])) and known_id(r[3]) not in known_ids
             small = shrink_case(pid, mod, c, rundir, failing)
-            rr = run_both(pid, mod, [small], rundir, tag="final", profile=prof)[0]
-            path = write_replay(pid, rundir, n, "oracle", rr[0], rr[1], rr[2], rr[3], dict(profile=prof, found_by="aimed search after a correspondence difference"))
-            violations.append(("oracle", path, ""))
+            rr = confirm_failure(pid, mod, small, rundir, prof, failing) or confirm_failure(pid, mod, c, rundir, prof, failing)
+            if rr is None:
+                UNREPRODUCED.append(dict(case=c[:2000], first_verdict=v, note="found by the aimed search, passed 6 re-runs"))
+                n -= 1
+            else:
+                path = write_replay(pid, rundir, n, "oracle", rr[0], rr[1], rr[2], rr[3], dict(profile=prof, found_by="aimed search after a correspondence difference"))
+                violations.append(("oracle", path, ""))
         else:
             prof, c, i, m, v = corr_fail[0]
             def failing(r):
                 return not corr_equal(r[1], r[2])
             small = shrink_case(pid, mod, c, rundir, failing)
-            rr = run_both(pid, mod, [small], rundir, tag="final", profile=prof)[0]
-            path = write_replay(pid, rundir, n, "correspondence", rr[0], rr[1], rr[2], rr[3],
-                                dict(profile=prof, broken="Corr_%s: model observation differs from implementation observation" % pid,
-                                     differing_cases=len(corr_fail), searched_extra_cases=len(extra)))
-            violations.append(("correspondence", path, "no-failing-input-found"))
+            rr = confirm_failure(pid, mod, small, rundir, prof, failing) or confirm_failure(pid, mod, c, rundir, prof, failing)
+            if rr is None:
+                UNREPRODUCED.append(dict(case=c[:2000], first_verdict="correspondence difference", note="differed once in the main run, agreed in 6 re-runs"))
+                n -= 1
+            else:
+                path = write_replay(pid, rundir, n, "correspondence", rr[0], rr[1], rr[2], rr[3],
+                                    dict(profile=prof, broken="Corr_%s: model observation differs from implementation observation" % pid,
+                                         differing_cases=len(corr_fail), searched_extra_cases=len(extra)))
+                violations.append(("correspondence", path, "no-failing-input-found"))
     if (broken or DEGRADED) and not violations:
         # the tie between model and code no longer checks: the harness does not build against this
         # tree; no failing input was found by whatever part could still run
@@ -736,6 +761,7 @@ def main_check(pid, argv):
             build_profiles=profiles,
             exhaustive=bool(getattr(mod, "EXHAUSTIVE", {}).get(tier, False)),
             claimed_strength=getattr(mod, "LEVEL", "proof"),
+            unreproduced_failures=UNREPRODUCED,
             repo=REPO,
         ),
         assumptions=getattr(mod, "ASSUMPTIONS", []),
@@ -753,6 +779,15 @@ def main_check(pid, argv):
         pid, tier, args.seed, proof["discharged"], proof["obligations"], len(results), len(distinct), len(corr_fail), len(oracle_fail), time.time() - t0))
     for p in proof["problems"]:
         print("PROOF PROBLEM:", p)
+    for u in UNREPRODUCED:
+        print("NOTE: a failure of the main run did not show again in 6 re-runs of the same case (timing artefact; see "
+              "evidence unreproduced_failures): %s | %s" % (u["first_verdict"], u["case"][:300]))
     for kind, path, note in violations:
+        try:
+            doc = json.load(open(path))
+            print("  replay %s: %s | case: %s" % (os.path.basename(path), str(doc.get("oracle_verdict") or doc.get("broken") or doc.get("broken_obligations"))[:200],
+                                                  str(doc.get("case"))[:400]))
+        except Exception:
+            pass
         print(("VIOLATION property=%s replay=%s %s" % (pid, path, note)).rstrip())
     return 1 if violations else 0
